@@ -18,6 +18,9 @@ CLAIMED = {
  "C04": dict(technique="static analysis: non-zero-divisor analysis over the fetch call scope (constants, max(), dominating comparisons, predicates, all call sites, frozen invariants), bounds-check-before-index rule for binary-search results, dominance/provenance rules for recover, not-found handling and result placement, lossless cache-key rule",
              text="For every path of the fetch code: no division by a possibly-zero value, no unchecked search result used as index, panics of one fraction are converted to errors, absent ids are skipped and never overwrite found documents, one response per id. These are necessary for 'absent IDs never error, crash or hang'; byte equality with the ingested document is not decided.",
              note="Trusted: go/ssa; frozen divisor invariants and the list of request-content functions in checker/internal/props/c04.go; interface calls resolved to repo implementations by types.Implements.", ref="§3 C04"),
+ "C07": dict(technique="static analysis: guarded-by must-lockset dataflow over SSA for a frozen field->mutex table (with caller-holds helpers and phase exemptions backed by ordering obligations), lock-class order graph acyclicity, who-may-read ownership of unprotected phase-ordered fields, dominance-based publication/snapshot order, lock typestate of data providers, path-sensitive retry ack",
+             text="Lockset discipline, lock order, publication order and hand-over rules are schedule-independent facts: they hold for every interleaving or are violated by some. They are necessary for race-freedom and reader safety on the tabled state; races on untabled memory, linearizability and liveness are not decided.",
+             note="Trusted: go/ssa; lock identity by access path within one function; the frozen tables in checker/internal/props/c07.go (each exemption has a reason and, for sealing, a backing obligation).", ref="§3 C07"),
 }
 
 NOT_YET = "check not built yet in this round (planned in DESIGN.md §3); nothing is claimed for it"
